@@ -161,7 +161,7 @@ theorem working_collect (pts : List (Point K)) (l : Line K) (L : K) (f : Nat) (s
   | zero => exact absurd hc' (collectFrom_zero _ _ _ _)
   | succ fuel' =>
     have hst : (s₁.state == .ToStash && s₁.stash.isEmpty) = false := by rw [hon1.working]; rfl
-    have hstep := step_line_end s₁ l₁ hon1.seg hst hn1
+    have hstep := step_line_end_working s₁ l₁ hon1.seg hst (by rw [hon1.working]; decide) hn1
     rw [get_input_nil ({ s₁ with dash_remaining := s₁.dash_remaining - s₁.seg_remaining } : DashIt K)
       (haux.1.trans hcp) hin1] at hstep
     obtain ⟨s₃, hs3⟩ : ∃ s₃ : DashIt K, s₃ = { ({ s₁ with dash_remaining := s₁.dash_remaining - s₁.seg_remaining }
@@ -331,12 +331,9 @@ theorem first_dash_collect : ∀ (pts : List (Point K)) (l : Line K) (L : K) (f 
       | zero => exact absurd hc (collectFrom_zero _ _ _ _)
       | succ fuel =>
         have hst : (s.state == .ToStash && s.stash.isEmpty) = false := by rw [hon.stashing, hon.nonempty]; rfl
-        have hstep := step_line_end s l hon.seg hst hlt
-        have hel : (if s.is_active = true then some (PathEl.LineTo l.p1) else none) = some (PathEl.LineTo l.p1) := by
-          rw [hon.active]; rfl
-        rw [hel, get_input_nil ({ s with dash_remaining := s.dash_remaining - s.seg_remaining } : DashIt K) hcp hin]
-          at hstep
-        rw [collect_stash_some n fuel s _ _ acc hon.stashing hstep] at hc
+        have hstep := step_line_end_stash s l hon.seg hst hon.stashing hon.active hlt
+        rw [get_input_nil ({ s with stash := s.stash.push (.LineTo l.p1), dash_remaining := s.dash_remaining - s.seg_remaining } : DashIt K) hcp hin] at hstep
+        rw [collect_stash_none n fuel s _ acc hon.stashing hstep] at hc
         have hr := collect_replay _ _ n fuel acc out rfl rfl rfl hc
         -- the specification: the rest of the segment is inside the entry
         simp only [polyLens] at hw
@@ -365,12 +362,9 @@ theorem first_dash_collect : ∀ (pts : List (Point K)) (l : Line K) (L : K) (f 
       | zero => exact absurd hc (collectFrom_zero _ _ _ _)
       | succ fuel =>
         have hst : (s.state == .ToStash && s.stash.isEmpty) = false := by rw [hon.stashing, hon.nonempty]; rfl
-        have hstep := step_line_end s l hon.seg hst hlt
-        have hel : (if s.is_active = true then some (PathEl.LineTo l.p1) else none) = some (PathEl.LineTo l.p1) := by
-          rw [hon.active]; rfl
-        rw [hel, get_input_lineTo ({ s with dash_remaining := s.dash_remaining - s.seg_remaining } : DashIt K) q
-          (pts.map .LineTo) hcp hin] at hstep
-        rw [collect_stash_some n fuel s _ _ acc hon.stashing hstep] at hc
+        have hstep := step_line_end_stash s l hon.seg hst hon.stashing hon.active hlt
+        rw [get_input_lineTo ({ s with stash := s.stash.push (.LineTo l.p1), dash_remaining := s.dash_remaining - s.seg_remaining } : DashIt K) q (pts.map .LineTo) hcp hin] at hstep
+        rw [collect_stash_none n fuel s _ acc hon.stashing hstep] at hc
         obtain ⟨s4, hs4⟩ : ∃ s4 : DashIt K, s4 = { (({ s with dash_remaining := s.dash_remaining - s.seg_remaining }
           : DashIt K).loadLine q (pts.map .LineTo)) with stash := s.stash.push (.LineTo l.p1) } := ⟨_, rfl⟩
         have hc4 : collectFrom n fuel s4 acc = .ok out := by rw [hs4]; exact hc
@@ -609,11 +603,11 @@ theorem dash_short_segment (p0 q : Point K) (off : K) (dashes : Array K) (budget
     subst hsB; subst hsA
     show ¬ it.init_dash_remaining < (Line.mk p0 q).arclen 0
     rw [← a5.2.1]; exact hge
-  have hstepB := step_line_end sB ⟨p0, q⟩ (by subst hsB; subst hsA; rfl) hstB hnlt
   have hactB : sB.is_active = true := by subst hsB; exact hactA
-  rw [if_pos hactB, get_input_nil ({ sB with dash_remaining := sB.dash_remaining - sB.seg_remaining } : DashIt K)
+  have hstepB := step_line_end_stash sB ⟨p0, q⟩ (by subst hsB; subst hsA; rfl) hstB (by subst hsB; subst hsA; rfl) hactB hnlt
+  rw [get_input_nil ({ sB with stash := sB.stash.push (.LineTo (Line.mk p0 q).p1), dash_remaining := sB.dash_remaining - sB.seg_remaining } : DashIt K)
     (by subst hsB; subst hsA; exact a10) (by subst hsB; subst hsA; rfl)] at hstepB
-  rw [collect_stash_some n 99997 sB _ _ [] (by subst hsB; subst hsA; rfl) hstepB]
+  rw [collect_stash_none n 99997 sB _ [] (by subst hsB; subst hsA; rfl) hstepB]
   rw [collect_replay_fwd 2 _ n 99996 [] (by subst hsB; subst hsA; show (((it.stash.push _).push _).size - it.stash_ix) = 2; rw [a7, a8]; rfl)
     rfl rfl (by omega)]
   subst hsB; subst hsA
